@@ -1,10 +1,11 @@
 (* C07 — lookups and hash joins.  Mechanised: the lookup dictionary maps every key to ALL of its values in table order
    (lookup), to the FIRST one (lookupone), and strict=True raises DuplicateKeyError exactly when a key repeats — for all
    tables, with the dict modelled as an insertion-ordered association list under ==.
-   The probe loops (model/HashJoins.v) are tied to hashjoins.py by the correspondence; that their output is the
-   nested-loop join in the order of the streamed side, and the same multiset as the sort-merge operator, is judged on
-   every run by the extracted oracles hash_spec_holds / same_table (not yet mechanised). *)
-From Verif Require Import PyVal Rows Dedup HashJoins HashFacts.
+   hashjoin / hashleftjoin: the probe loop is the nested-loop join in the order of the streamed table, and hashjoin has
+   the same multiset of rows as the sort-merge join.  hashrightjoin / hashantijoin / hashlookupjoin are tied by the
+   correspondence and judged by the extracted oracles hash_spec_holds / same_table (their theorems are not mechanised). *)
+From Verif Require Import PyVal Rows ComparableGen ComparableFacts Sort Basics Dedup Joins Relational HashJoins HashFacts JoinRel.
+From Coq Require Import Permutation.
 
 Theorem C07_lookup_groups_in_table_order : forall gk gv k v rows,
   (forall r, In r rows -> gk r = Some (k r) /\ gv r = Some (v r)) ->
@@ -26,6 +27,38 @@ Theorem C07_strict_raises_iff_duplicate : forall gk gv k v rows,
   end.
 Proof. intros gk gv k v rows H. apply (lookupone_strict gk gv k v rows [] [] H). intros key. reflexivity. Qed.
 
+(* hashjoin / hashleftjoin: the probe loop over the lookup dictionary IS the nested-loop join, emitted in the order of
+   the streamed (left) table; hypotheses: rows squared up (key cells present), key values hashable (no lists). *)
+Theorem C07_hashjoin_is_nested_loop_in_left_order : forall n lkind rkind rvind missing L R,
+  (forall r, In r R -> raw_getkey rkind r = Some (getkey rkind r) /\ whole_row n r = Some (VSeq false r)
+                       /\ as_tuples (getkey rkind r) = getkey rkind r) ->
+  (forall l, In l L -> raw_getkey lkind l = Some (getkey lkind l) /\ as_tuples (getkey lkind l) = getkey lkind l) ->
+  forall leftouter,
+  exists rl, lookup_loop (raw_getkey rkind) (whole_row n) [] R = Ok rl /\
+             hashjoin_loop lkind rvind missing leftouter rl L
+             = (nls_left lkind rkind rvind missing leftouter L R, None).
+Proof. exact hashjoin_is_nested_loop. Qed.
+
+(* hence hashjoin returns the same multiset of rows as the sort-merge join (C06), for every buffersize of the latter *)
+Theorem C07_hashjoin_agrees_with_join : forall n lkind rkind rvind missing L R,
+  (forall r, In r R -> raw_getkey rkind r = Some (getkey rkind r) /\ whole_row n r = Some (VSeq false r)
+                       /\ as_tuples (getkey rkind r) = getkey rkind r) ->
+  (forall l, In l L -> raw_getkey lkind l = Some (getkey lkind l) /\ as_tuples (getkey lkind l) = getkey lkind l) ->
+  exists rl out, lookup_loop (raw_getkey rkind) (whole_row n) [] R = Ok rl /\
+                 hashjoin_loop lkind rvind missing false rl L = (out, None) /\
+                 Permutation out
+                   (join_loop n lkind rkind rvind missing false false
+                      (groupby (getkey lkind) (sort_data (row_leb false lkind) None L))
+                      (groupby (getkey rkind) (sort_data (row_leb false rkind) None R))).
+Proof.
+  intros n lkind rkind rvind missing L R HR HL.
+  destruct (hashjoin_is_nested_loop n lkind rkind rvind missing L R HR HL false) as (rl & E & H).
+  exists rl, (nls_left lkind rkind rvind missing false L R). repeat split; auto.
+  rewrite nls_left_inner.
+  rewrite (join_is_relational n lkind rkind rvind missing false false None None L R) by discriminate.
+  unfold nl_join. rewrite app_nil_r. reflexivity.
+Qed.
+
 Open Scope Z_scope.
 Example C07_ex :
   lookup_model (VStr [107]) (Some (VStr [118]))
@@ -36,3 +69,5 @@ Proof. vm_compute. reflexivity. Qed.
 Print Assumptions C07_lookup_groups_in_table_order.
 Print Assumptions C07_lookupone_keeps_first.
 Print Assumptions C07_strict_raises_iff_duplicate.
+Print Assumptions C07_hashjoin_is_nested_loop_in_left_order.
+Print Assumptions C07_hashjoin_agrees_with_join.
